@@ -231,6 +231,21 @@ class MaskV:
         return self.seq.trigger(p) if isinstance(self.seq, ZipSeq) else self.seq.at(p)
 
 
+class PairSeq:
+    """a Python list of 2-tuples of ints, kept as two parallel sequences (first components, second components)."""
+
+    def __init__(self, a, b):
+        self.a, self.b = a, b
+        self.kind = "list"
+
+    @property
+    def n(self):
+        return self.a.n
+
+    def at(self, j):
+        return Tup([self.a.at(j), self.b.at(j)])
+
+
 class MaybeFloat:
     """an integer-valued numpy scalar whose dtype is float64 when `when` holds (sum / % over array([]) without a dtype)."""
 
